@@ -180,12 +180,15 @@ def run_contract_case(contract: Contract, case, registry: Registry, tier, seed):
     if res["unsupported"]:
         return res
     # discharge (per contract-case budget: once exceeded, remaining obligations get a short timeout,
-    # so that a tree on which proofs no longer go through is reported undecided/refuted in bounded time)
+    # so that a tree on which proofs no longer go through is reported undecided/refuted in bounded time).
+    # Only time spent on obligations that were *not* discharged counts against the budget: on a tree where
+    # every proof goes through, a slow (busy) machine never shortens anybody's budget.
     budget_s = float(os.environ.get("PYVC_CASE_BUDGET_S", "90" if tier == "quick" else "600"))
     spent = 0.0
     for ob in ex.obligations:
         verdict, model, backend, dt = solve(ob.pc, ob.goal, timeout if spent < budget_s else 2000)
-        spent += dt
+        if verdict != "unsat":
+            spent += dt
         entry = {"name": ob.name, "kind": ob.kind, "path": ob.path, "verdict": verdict, "backend": backend, "s": round(dt, 3), "closed": ob.closed, "where": ob.where, "note": ob.note, "size": len(ob.pc)}
         if verdict == "sat":
             env = getattr(ob, "env", {})
